@@ -150,6 +150,7 @@ func Load(root string, modules []string, overlay map[string][]byte) (*Program, e
 			prog.NumFuncs++
 		}
 	}
+	prog.resolveTypes()
 	prog.resolveAnchors()
 	return prog, nil
 }
@@ -194,6 +195,14 @@ func (p *Program) funcByName(pkgPath, name string) *ssa.Function {
 	dot := strings.IndexByte(s, '.')
 	tn, mn := s[:dot], s[dot+1:]
 	obj := sp.Pkg.Scope().Lookup(tn)
+	if obj == nil {
+		// the type may have been renamed: find the current holder of the frozen name
+		for cur, canon := range typeCanon {
+			if canon == tn && cur.Pkg() == sp.Pkg {
+				obj = cur
+			}
+		}
+	}
 	if obj == nil {
 		return nil
 	}
@@ -321,11 +330,11 @@ func rawFuncName(f *ssa.Function) string {
 		t := recv.Type()
 		if pt, ok := t.(*types.Pointer); ok {
 			if n, ok := pt.Elem().(*types.Named); ok {
-				return "(*" + n.Obj().Name() + ")." + f.Name()
+				return "(*" + TName(n) + ")." + f.Name()
 			}
 		}
 		if n, ok := t.(*types.Named); ok {
-			return n.Obj().Name() + "." + f.Name()
+			return TName(n) + "." + f.Name()
 		}
 	}
 	return f.Name()
